@@ -47,5 +47,24 @@ for name in sorted(mat["matrix"]):
             v.append("%s not caught (rc=%s)" % (chk, r["rc"]))
     out.append("| %s | %s | %s | %s |" % (name, name[:3], needs.get(name, "").replace("|", "/"), "; ".join(v)))
 put("SEEDS", "\n".join(out))
+sys.path.insert(0, ROOT)
+from props import PROPS
+tt = {}
+if os.path.exists(ROOT + "/tools/thorough_times.json"):
+    tt = json.load(open(ROOT + "/tools/thorough_times.json"))
+out = ["| Id | Package(s): test functions | Deciding method | Level | quick: cases / s | thorough: cases / s |", "|---|---|---|---|---|---|"]
+for pid in sorted(PROPS):
+    p = PROPS[pid]
+    tests = ", ".join("%s%s" % (t["name"], " (fuzz %ds)" % t["fuzz"] if t.get("fuzz") else "") for t in p["tests"])
+    pk = "+".join(sorted(set([p["pkg"]] + [t.get("pkg", p["pkg"]) for t in p["tests"]])))
+    q = ""
+    ef = ROOT + "/evidence/%s.json" % pid
+    if os.path.exists(ef):
+        e = json.load(open(ef))
+        if e.get("tier") == "quick":
+            q = "%d / %.0f" % (e["coverage"]["evaluations"], e["wall_s"])
+    th = tt.get(pid)
+    out.append("| %s | %s: %s | %s | %s | %s | %s |" % (pid, pk, tests, p["technique"], p["level"], q, ("%d / %.0f" % (th["cases"], th["secs"])) if th else ""))
+put("SUMMARY", "\n".join(out))
 open(ROOT + "/DESIGN.md", "w").write(d)
 print("rendered")
